@@ -110,7 +110,10 @@ def main():
             if sel and meta["property"] not in sel:
                 continue
             props = meta["checks_run"].split("<patch>")[-1].split()
-            res, err = run_in_worktree(os.path.join(d, "patch.diff"), props)
+            bpatch = os.path.join(d, "patch_rebased.diff")
+            if not os.path.exists(bpatch):
+                bpatch = os.path.join(d, "patch.diff")
+            res, err = run_in_worktree(bpatch, props)
             if res is None:
                 print("benign %s: NOT EVALUATED (%s)" % (meta["id"], err)); bad += 1; continue
             alarms = [(p, rc, k) for p, rc, k in res if rc != 0]
